@@ -384,14 +384,18 @@ def normalize(d, aspects):
   return d
 
 
-def has_subcont(d):
+def has_subclass(d, kinds):
+  """Does the description hold a value of a user subclass of pg.List / pg.Dict
+  (kinds='lLdD') or of tuple (kinds='t')?"""
   k = d[0]
+  if k in kinds and len(d) > 2:
+    return True
   if k in 'lL':
-    return len(d) > 2 or any(has_subcont(x) for x in d[1])
+    return any(has_subclass(x, kinds) for x in d[1])
   if k in 'dD':
-    return len(d) > 2 or any(has_subcont(x) for _, x in d[1])
+    return any(has_subclass(x, kinds) for _, x in d[1])
   if k == 'O':
-    return any(has_subcont(x) for _, x in d[2])
+    return any(has_subclass(x, kinds) for _, x in d[2])
   return False
 
 
@@ -826,9 +830,10 @@ class Pool:
     if key not in self._flags:
       out = set()
       flags(self.vals[i], self.vals[j], out)
-      if has_subcont(self.descs[i]) or has_subcont(self.descs[j]):
-        # somewhere in the pair (a copy of such a value is a pg.List / pg.Dict)
-        out.add('container-subclass')
+      # somewhere in the pair (a copy of such a value is a pg.List / pg.Dict / tuple)
+      for name, kinds in (('container-subclass', 'lLdD'), ('tuple-subclass', 't')):
+        if has_subclass(self.descs[i], kinds) or has_subclass(self.descs[j], kinds):
+          out.add(name)
       self._flags[key] = out
     return self._flags[key]
 
@@ -916,6 +921,25 @@ def pair_clauses(x, y, twin=False):
     elif hx != hy:
       out.add('eq-hash-differ')
   return out
+
+
+def value_class_mech(desc, path, clause):
+  """If two values freshly built from `desc` already break `clause` at the node
+  at `path` (so no history is needed): the aspect(s) of SPECIAL without which
+  they do not, else None."""
+  def fresh(d):
+    return navigate(build(d), path), navigate(build(d), path)
+  a, b = fresh(desc)
+  if clause not in pair_clauses(a, b, twin=True):
+    return None
+  fl = set()
+  flags(a, b, fl)
+  special = [x for x in SPECIAL if x in fl]
+  for asp in [[x] for x in special] + ([special] if len(special) > 1 else []):
+    a, b = fresh(normalize(desc, asp))
+    if clause not in pair_clauses(a, b, twin=True):
+      return '+'.join(asp)
+  return None
 
 
 def as_symbolic(v):
@@ -1288,10 +1312,16 @@ def run_histories(ctx, P, pal):
           if clause == 'eq-hash-differ':
             fl = set()
             flags(n, t, fl)
+            # (a clone of a value of a user subclass of pg.List / pg.Dict / tuple is
+            # a pg.List / pg.Dict / tuple: the live value may be one)
             if 'container-subclass' in fl:
-              # (a clone of a value of a user subclass of pg.List / pg.Dict is a
-              # pg.List / pg.Dict: the live value may be one)
               m = 'container-subclass'
+            elif 'tuple-subclass' in fl:
+              m = 'tuple-subclass'
+          if m is mech:
+            ctx.label = 'build-twin'
+            m = value_class_mech(desc, p, clause) or mech
+            ctx.label = None
           if permuted and m is mech:
             # Does the same law fail against a twin that stores its keys in the
             # order of the live value? If not, the stored order decides.
@@ -1668,7 +1698,10 @@ def run_case(ctx, i):
     report('sort-raises', (), f'sorted() raised {res.text}', mech='sorted')
 
   # The sub-pool whose pairs all satisfy the pair laws must come out ordered.
-  dirty = {x for pr in excluded for x in pr}
+  # (a NaN / Unequal that is itself a pool member is silent against every other
+  # member: it leaves the sub-pool alone)
+  dirty = {a for a in range(n) if is_hostile(V[a])}
+  dirty |= {x for pr in excluded if not set(pr) & dirty for x in pr}
   cleanidx = [x for x in order if x not in dirty]
   res2 = call(lambda: sorted(cleanidx, key=functools.cmp_to_key(cmp)))
   if isinstance(res2, Raised):
